@@ -9,6 +9,14 @@ use std::collections::HashMap;
 use std::sync::{Arc, RwLock};
 
 fn named_adf(n: usize, tabs: &[Vec<u8>], names: &[String]) -> Adf {
+    if tabs.is_empty() {
+        // statements whose acceptance condition is the statement itself (dictionary tests with many statements)
+        let mut bdd = Bdd::new();
+        let acs: Vec<Term> = (0..n).map(|v| bdd.variable(Var(v))).collect();
+        let mapping: HashMap<String, usize> = names.iter().enumerate().map(|(i, s)| (s.clone(), i)).collect();
+        let vc = VarContainer::from_parser(Arc::new(RwLock::new(names.to_vec())), Arc::new(RwLock::new(mapping)));
+        return Adf::from((vc, bdd, acs));
+    }
     let plain = adf_from_tabs(n, tabs);
     let mapping: HashMap<String, usize> = names.iter().enumerate().map(|(i, s)| (s.clone(), i)).collect();
     let vc = VarContainer::from_parser(Arc::new(RwLock::new(names.to_vec())), Arc::new(RwLock::new(mapping)));
